@@ -178,6 +178,12 @@ fn run_vectors(path: &str, out: &str) {
                     r.cmp(d.values[1] == Tree::I8(0x5a) && d.ends[1] == enc.len() + 1, v.id, pn, form, "dec-next", || json!({"next": d.values[1].to_json()}));
                     r.cmp(fresh_r(&d.states[0]), v.id, pn, form, "read-leaves-fresh", || d.states[0].clone());
                 }
+                // the same value as the LAST thing on the buffer (nothing behind it)
+                let d = decode_seq(p, enc, &[v.t], false);
+                match &d.err {
+                    Some(err) => r.bad(v.id, pn, form, "dec-exact-err", json!(err)),
+                    None => r.cmp(d.values[0] == want && d.ends[0] == enc.len(), v.id, pn, form, "dec-exact", || json!({"got": d.values[0].to_json(), "consumed": d.ends[0]})),
+                }
                 // asynchronous twin: whole stream at once, and one byte at a time with a spurious
                 // Pending before every byte
                 if p != Proto::Unsafe {
